@@ -314,9 +314,12 @@ impl<'a> io::Write for ScriptWrite<'a> {
 pub fn check_write(rep: &mut Report, seed: u64, i: u64) {
     rep.eval();
     let mut rng = Rng::derive("c14/write", seed, 0, i);
-    let n = 1 + rng.below(6) as usize;
-    let max_len = *rng.pick(&[8usize, 16, 64, 512 * 1024]);
-    let script: Vec<Step> = (0..rng.below(40)).map(|_| if rng.chance(1, 5) { Step::Interrupted } else { Step::Deliver(1 + rng.below(9) as usize) }).collect();
+    // one sequence in 50 mixes values of 60 KiB .. 1.2 MiB (around and above the default limit
+    // and any plausible internal buffer policy) with small ones, under limits below / at / above them
+    let big = i % 50 == 7;
+    let n = if big { 3 + rng.below(4) as usize } else { 1 + rng.below(6) as usize };
+    let max_len = if big { *rng.pick(&[100usize, 512 * 1024, 2 << 20]) } else { *rng.pick(&[8usize, 16, 64, 512 * 1024]) };
+    let script: Vec<Step> = (0..rng.below(40)).map(|_| if rng.chance(1, 5) { Step::Interrupted } else if big { Step::Deliver(*rng.pick(&[4096usize, 65_536, 100_000]) + rng.below(3) as usize) } else { Step::Deliver(1 + rng.below(9) as usize) }).collect();
     let rp = vec!["c14".into(), "--seed".into(), seed.to_string(), "--replay".into(), "write".into(), i.to_string()];
     let r = mon::guarded(|| {
         let sink = ScriptWrite { out: Vec::new(), script: &script, i: 0 };
@@ -337,7 +340,8 @@ pub fn check_write(rep: &mut Report, seed: u64, i: u64) {
                     }
                 }
                 _ => {
-                    let v: Vec<u16> = (0..rng.below(24)).map(|_| rng.next_u32() as u16 >> rng.below(16)).collect();
+                    let k = if big && rng.chance(1, 2) { 20_000 + rng.below(400_000) } else { rng.below(24) };
+                    let v: Vec<u16> = (0..k).map(|_| rng.next_u32() as u16 >> rng.below(16)).collect();
                     let payload = minicbor::to_vec(&v).unwrap();
                     let before = w.writer().out.len();
                     let r = w.write(&v);
